@@ -13,7 +13,8 @@ REQUIRED_THEOREMS = ["comparison_roundtrip", "condition_roundtrip", "linear_adju
                      "term_roundtrip", "polynomial_roundtrip", "mapM_all", "splinepoint_roundtrip", "spline_roundtrip",
                      "discrete_lookup_roundtrip", "contextmatch_roundtrip", "context_calibrator_roundtrip",
                      "default_calibrator_roundtrip", "context_list_roundtrip", "int_encoding_roundtrip",
-                     "float_encoding_roundtrip", "binary_encoding_roundtrip"]
+                     "float_encoding_roundtrip", "binary_encoding_roundtrip", "anded_roundtrip", "ored_roundtrip",
+                     "boolexpr_roundtrip", "group_children"]
 RULE = ("requests `cyclexml <prefix> <nsmap> <root> <tree>` (definitions loaded from independently written XML, with units, "
         "descriptions incl. empty ones, time types, every optional attribute at non-default values) and `cycleobj <ldef>` "
         "(definitions assembled from objects): write, load, write, load, write on both sides; the by-name serialisation of "
@@ -66,7 +67,7 @@ URIS = [xmlgen.XTCE_NS, xmlgen.XTCE_NS, "http://www.omg.org/space/xtce", "urn:ex
 
 
 def gen_docs(rng, tier):
-    ndefs = 14 if tier == "quick" else 500
+    ndefs = 14 if tier == "quick" else 1500
     for _ in range(ndefs):
         d = defgen.Defn(rng, apid_name=rng.choice(["PKT_APID", "APID"]), max_depth=rng.choice([1, 2, 3]), fanout=3,
                         adj_pool=ADJ_POOL, rich=True)
